@@ -33,6 +33,7 @@ import (
 	"github.com/openconfig/gnmi/coalesce"
 	"github.com/openconfig/gnmi/ctree"
 	pb "github.com/openconfig/gnmi/proto/gnmi"
+	"github.com/openconfig/gnmi/proto/gnmi_ext"
 	"github.com/openconfig/gnmi/subscribe"
 	"github.com/openconfig/gnmi/zz_verif/vh"
 )
@@ -49,6 +50,10 @@ type GPath struct {
 	Target string `json:"t,omitempty"`
 	Origin string `json:"o,omitempty"`
 	Elems  []Elem `json:"e,omitempty"`
+	// Element: the deprecated element encoding set NEXT TO a non-empty elem
+	// list (request paths only): path.ToStrings ignores it then, and so does
+	// the model, which does not see it.
+	Element []string `json:"el,omitempty"`
 }
 
 type Upd struct {
@@ -91,6 +96,11 @@ type Req struct {
 	Subs        []*GPath `json:"subs"` // null entry = Subscription without a path
 	Mode        int      `json:"mode"` // 0 STREAM 1 ONCE 2 POLL
 	UpdatesOnly bool     `json:"updates_only,omitempty"`
+	// Noise != 0: fields that are legal on the wire and that the server ignores
+	// are set (derived from this seed): Subscription.mode / sample_interval /
+	// heartbeat_interval / suppress_redundant, SubscriptionList.qos /
+	// allow_aggregation / use_models / encoding, SubscribeRequest.extension.
+	Noise uint64 `json:"noise,omitempty"`
 }
 
 type ACLRow struct {
@@ -138,8 +148,14 @@ type Case struct {
 	Req2  *Req    `json:"req2,omitempty"`
 	User2 *string `json:"user2,omitempty"`
 	View  string  `json:"view,omitempty"`
-	// Perturb: yield at the insert schedule point of the coalescing queue
-	Perturb bool `json:"perturb,omitempty"`
+	// Build != 0: the server is constructed another way (derived from this
+	// seed): the options in a permuted order, nil options interleaved, and
+	// behaviour-neutral options added (WithStats, WithFlowControlTest, the stats
+	// test hooks, WithTimeout(default)).  0 = WithACL, WithTimeout in that order.
+	Build uint64 `json:"build,omitempty"`
+	// Perturb: 1 = producers yield at the insert schedule point of the coalescing
+	// queue, 2 = the consumer yields at the point where it found the queue empty
+	Perturb int `json:"perturb,omitempty"`
 	// TimeoutMS > 0: the server is built with subscribe.WithTimeout (the send
 	// timeout; armed only while a Send is in progress, so idle gaps longer than
 	// it must not matter).  IdleEndMS: idle gap before the client ends the
@@ -156,6 +172,9 @@ type Case struct {
 
 func pbPath(g GPath) *pb.Path {
 	p := &pb.Path{Target: g.Target, Origin: g.Origin}
+	if len(g.Elems) > 0 {
+		p.Element = g.Element
+	}
 	for _, e := range g.Elems {
 		pe := &pb.PathElem{Name: e.Name}
 		if len(e.Keys) > 0 {
@@ -525,20 +544,42 @@ func pbRequest(r *Req) *pb.SubscribeRequest {
 	if r.Prefix != nil {
 		sl.Prefix = pbPath(*r.Prefix)
 	}
+	var nz *vh.Rand
+	if r.Noise != 0 {
+		nz = vh.NewRand(r.Noise)
+		if nz.Chance(1, 2) {
+			sl.Qos = &pb.QOSMarking{Marking: uint32(nz.Intn(64))}
+		}
+		sl.AllowAggregation = nz.Chance(1, 2)
+		if nz.Chance(1, 2) {
+			sl.UseModels = []*pb.ModelData{{Name: "openconfig-interfaces", Organization: "oc", Version: "1.0"}}
+		}
+		sl.Encoding = pb.Encoding(nz.Intn(5))
+	}
 	for _, s := range r.Subs {
 		sub := &pb.Subscription{}
 		if s != nil {
 			sub.Path = pbPath(*s)
 		}
+		if nz != nil {
+			sub.Mode = pb.SubscriptionMode(nz.Intn(3))
+			sub.SampleInterval = uint64(nz.Intn(3)) * 1000000000
+			sub.HeartbeatInterval = uint64(nz.Intn(2)) * 5000000000
+			sub.SuppressRedundant = nz.Chance(1, 2)
+		}
 		sl.Subscription = append(sl.Subscription, sub)
 	}
-	return &pb.SubscribeRequest{Request: &pb.SubscribeRequest_Subscribe{Subscribe: sl}}
+	req := &pb.SubscribeRequest{Request: &pb.SubscribeRequest_Subscribe{Subscribe: sl}}
+	if nz != nil && nz.Chance(1, 2) {
+		req.Extension = []*gnmi_ext.Extension{{Ext: &gnmi_ext.Extension_RegisteredExt{RegisteredExt: &gnmi_ext.RegisteredExtension{Id: gnmi_ext.ExtensionID_EID_EXPERIMENTAL, Msg: []byte("x")}}}}
+	}
+	return req
 }
 
 // insertCount counts coalesce.Queue.Insert calls (hook point insert:checked).
 var insertCount int64
 
-// perturb (Case.Perturb): every queue insert of the case yields for a moment at
+// perturb (Case.Perturb = 1): every queue insert of the case yields for a moment at
 // the schedule point between Insert's closed/emptiness checks and the locked
 // insert, so that the sender can drain the queue and park in Next in between.
 var perturb int32
@@ -547,10 +588,17 @@ func installHooks() {
 	coalesce.VerifHook = func(p string) {
 		if p == "insert:checked" {
 			atomic.AddInt64(&insertCount, 1)
-			if atomic.LoadInt32(&perturb) != 0 {
+			if atomic.LoadInt32(&perturb) == 1 {
 				for t0 := time.Now(); time.Since(t0) < 40*time.Microsecond; {
 					runtime.Gosched()
 				}
+			}
+		}
+		// the consumer found the queue empty and is about to wait: let the
+		// producer insert the rest (and close the queue) before it selects
+		if p == "next:empty" && atomic.LoadInt32(&perturb) == 2 {
+			for t0 := time.Now(); time.Since(t0) < 150*time.Microsecond; {
+				runtime.Gosched()
 			}
 		}
 	}
@@ -592,6 +640,80 @@ func normaliseBursts(ops []Step) {
 	}
 }
 
+// serverOptions: the option list NewServer is called with.  WithoutDupReport
+// is the one exported option left out: it removes the duplicate counts the
+// comparison of coalesced responses relies on.
+func serverOptions(c *Case, withACL bool) []subscribe.Option {
+	var opts []subscribe.Option
+	if withACL && c.HasACL {
+		opts = append(opts, subscribe.WithACL(&fakeACL{rows: c.ACL}))
+	}
+	if c.TimeoutMS > 0 {
+		opts = append(opts, subscribe.WithTimeout(time.Duration(c.TimeoutMS)*time.Millisecond))
+	}
+	if c.Build == 0 {
+		return opts
+	}
+	r := vh.NewRand(c.Build)
+	if c.TimeoutMS == 0 && r.Chance(1, 2) {
+		opts = append(opts, subscribe.WithTimeout(time.Minute))
+	}
+	if r.Chance(1, 2) {
+		opts = append(opts, subscribe.WithStats())
+	}
+	if r.Chance(1, 3) {
+		opts = append(opts, subscribe.WithFlowControlTest(func() {}))
+	}
+	if r.Chance(1, 3) {
+		opts = append(opts, subscribe.WithClientStatsTest(func(int64, int64) {}))
+	}
+	if r.Chance(1, 4) {
+		opts = append(opts, subscribe.WithUpdateSubsCountEnterTest(func() {}), subscribe.WithUpdateSubsCountExitTest(func() {}))
+	}
+	// nil options (tolerated by NewServer) at random positions, then a permutation
+	for k := r.Intn(3); k >= 0; k-- {
+		opts = append(opts, nil)
+	}
+	for i := len(opts) - 1; i > 0; i-- {
+		j := r.Intn(i + 1)
+		opts[i], opts[j] = opts[j], opts[i]
+	}
+	return opts
+}
+
+// addNoise decorates a generated case with what the code under test is
+// supposed to ignore: a target (and the deprecated element list) on
+// subscription paths and the prefix's element list, ignored request fields,
+// another way of constructing the server.
+func addNoise(r *vh.Rand, c *Case) {
+	noisePath := func(p *GPath, isPrefix bool) {
+		if p == nil {
+			return
+		}
+		if !isPrefix && r.Chance(1, 8) {
+			p.Target = []string{"t1", "t2", "tx", "*"}[r.Intn(4)] // a target is only meaningful in the prefix
+		}
+		if len(p.Elems) > 0 && r.Chance(1, 10) {
+			p.Element = []string{"zz", "a"}[:1+r.Intn(2)]
+		}
+	}
+	for _, rq := range []*Req{c.Req, c.Req2} {
+		if rq == nil {
+			continue
+		}
+		if r.Chance(1, 4) {
+			rq.Noise = r.U64() | 1
+		}
+		noisePath(rq.Prefix, true)
+		for _, sp := range rq.Subs {
+			noisePath(sp, false)
+		}
+	}
+	if r.Chance(1, 3) {
+		c.Build = r.U64() | 1
+	}
+}
+
 func opTarget(op Step) string {
 	if op.K == "update" {
 		return op.N.Prefix.Target
@@ -604,20 +726,13 @@ func opTarget(op Step) string {
 // c.User) and, if there is a step "sub2", a second call on the same server from
 // the same peer address (request c.Req2, user c.User2) that overlaps the first.
 func runScript(c *Case, withACL bool) []*Run {
-	if c.Perturb {
-		atomic.StoreInt32(&perturb, 1)
+	if c.Perturb != 0 {
+		atomic.StoreInt32(&perturb, int32(c.Perturb))
 		defer atomic.StoreInt32(&perturb, 0)
 	}
 	cache.Now = func() time.Time { return time.Unix(0, fakeNow) }
 	ca := cache.New(c.Targets)
-	var opts []subscribe.Option
-	if withACL && c.HasACL {
-		opts = append(opts, subscribe.WithACL(&fakeACL{rows: c.ACL}))
-	}
-	if c.TimeoutMS > 0 {
-		opts = append(opts, subscribe.WithTimeout(time.Duration(c.TimeoutMS)*time.Millisecond))
-	}
-	srv, _ := subscribe.NewServer(ca, opts...)
+	srv, _ := subscribe.NewServer(ca, serverOptions(c, withACL)...)
 	ca.SetClient(srv.Update)
 
 	// both callers arrive from the same peer address
@@ -1107,12 +1222,17 @@ type emitter struct {
 	meta    *vh.Meta
 	limit   int
 	require string
-	twice   bool // also run every case against a server without ACL (C07)
+	noise   *vh.Rand // decorates generated cases (not corpus / replay)
+	twice   bool     // also run every case against a server without ACL (C07)
 	nontriv func(*Case) bool
 }
 
 func (e *emitter) add(family string, c Case) {
 	c.Family = family
+	if e.noise != nil && family != "corpus" && family != "replay" {
+		c = cloneCase(c) // generators may share request objects between cases
+		addNoise(e.noise, &c)
+	}
 	runs1 := runScript(&c, true)
 	var runs2 []*Run
 	if e.twice {
@@ -1140,6 +1260,18 @@ func (e *emitter) add(family string, c Case) {
 		c.R2 = runs2[0]
 	}
 	e.addOne(family, c)
+}
+
+func cloneCase(c Case) Case {
+	b, err := json.Marshal(c)
+	if err != nil {
+		panic(err)
+	}
+	var out Case
+	if err := json.Unmarshal(b, &out); err != nil {
+		panic(err)
+	}
+	return out
 }
 
 func (e *emitter) addOne(family string, c Case) {
@@ -1388,6 +1520,9 @@ func (g *gen) dataNoti(t string, pathOrigins bool) *Noti {
 		u := Upd{Path: GPath{Elems: p}, Val: val()}
 		if pathOrigins && n.Prefix.Origin == "" && len(n.Prefix.Elems) == 0 && r.Chance(1, 4) {
 			u.Path.Origin = g.origin(0, 2, 1)
+		}
+		if r.Chance(1, 25) {
+			u.Path.Target = "t9" // a target on an update path is ignored by the index
 		}
 		if r.Chance(1, 100) {
 			// empty index path: rejected by the cache
